@@ -785,6 +785,18 @@ def _check_completeness(repo: Repo, rep: Report, tier, ot):
         keys = sorted(pats, key=str)
         for combo in itertools.product(*[pats[k] for k in keys]):
             cases.append((cyc, {("present", k, repr(t)): (t.k in on) for k, on in zip(keys, combo) for t in ids}))
+        # two routes that converge on one occurrence (A-B, A-C at t+1; B-D, C-D at t+2) and a continuation from it that is a bounce
+        # for one of the routes only (D-B at t+4): what may follow an occurrence depends on where the walk came from
+        if directed:
+            dia = Shape("diamond A->B, A->C, B->D, C->D, D->B", ["A", "B", "C", "D"], [("A", "B"), ("A", "C"), ("B", "D"), ("C", "D"), ("D", "B")], True)
+            dpats = [{("A", "B"): (1,), ("A", "C"): (1,), ("B", "D"): (2,), ("C", "D"): (2,), ("D", "B"): (4,)},
+                     {("A", "B"): (1,), ("A", "C"): (1, 2), ("B", "D"): (2,), ("C", "D"): (2, 4), ("D", "B"): (4,)}]
+        else:
+            dia = Shape("diamond A-B, A-C, B-D, C-D", ["A", "B", "C", "D"], [("A", "B"), ("A", "C"), ("B", "D"), ("C", "D")], False)
+            dpats = [{("A", "B"): (1,), ("A", "C"): (1,), ("B", "D"): (2, 4), ("C", "D"): (2,)},
+                     {("A", "B"): (1,), ("A", "C"): (1, 2), ("B", "D"): (2, 4), ("C", "D"): (2, 4)}]
+        for pat in dpats:
+            cases.append((dia, {("present", dia.key(*k), repr(t)): (t.k in on) for k, on in pat.items() for t in ids}))
         for shape, seed in cases:
             P = PresenceTable(shape, seed, ids)
             pres = ", ".join("%s%s%s@%s" % (k[1][0], "->" if directed else "-", k[1][1], k[2]) for k, v in sorted(seed.items(), key=str) if v) or "nothing"
